@@ -51,6 +51,11 @@ impl Parser {
         }
     }
 
+    /// To be called once all `#[logos(...)]` items have been read
+    pub fn check_type_params(&mut self) {
+        self.types.check_cycles(&mut self.errors);
+    }
+
     pub fn generics(&mut self) -> Option<TokenStream> {
         self.types.generics(&mut self.errors)
     }
